@@ -2118,6 +2118,242 @@ pub mod optbuild {
 }
 
 //============================================================================
+// C05: record data built through the record types' own constructors
+//============================================================================
+
+pub mod ctor {
+    use super::*;
+    use domain::base::charstr::CharStr;
+    use domain::base::iana::{
+        DigestAlgorithm, IpseckeyAlgorithm, Nsec3HashAlgorithm, OptionCode, SecurityAlgorithm,
+        SshfpAlgorithm, SshfpType, SvcParamKey, TlsaCertificateUsage, TlsaMatchingType,
+        TlsaSelector, TsigRcode, ZonemdAlgorithm, ZonemdScheme,
+    };
+    use domain::base::name::Name;
+    use domain::base::net::{Ipv4Addr, Ipv6Addr};
+    use domain::base::opt::{Opt, UnknownOptData};
+    use domain::base::Serial;
+    use domain::rdata::caa::{CaaFlags, CaaTag};
+    use domain::rdata::dnssec::{RtypeBitmap, Timestamp};
+    use domain::rdata::ipseckey::IpseckeyGateway;
+    use domain::rdata::nsec3::{Nsec3Salt, OwnerHash};
+    use domain::rdata::rfc1035::TxtBuilder;
+    use domain::rdata::svcb::{SvcParamsBuilder, UnknownSvcParam};
+    use domain::rdata::tsig::Time48;
+    use domain::rdata::*;
+    use verif_harness::common::bytes_of;
+
+    pub type Built = AllRecordData<Vec<u8>, Name<Vec<u8>>>;
+    type R<T> = Result<T, String>;
+
+    fn name(v: &Value) -> R<Name<Vec<u8>>> {
+        let mut w = vec![];
+        for l in v.as_array().ok_or("name")? {
+            let l = bytes_of(l);
+            w.push(l.len() as u8);
+            w.extend_from_slice(&l);
+        }
+        w.push(0);
+        Name::from_octets(w).map_err(|e| e.to_string())
+    }
+    fn u8f(v: &Value) -> u8 {
+        bytes_of(v)[0]
+    }
+    fn u16f(v: &Value) -> u16 {
+        let b = bytes_of(v);
+        u16::from_be_bytes([b[0], b[1]])
+    }
+    fn u32f(v: &Value) -> u32 {
+        let b = bytes_of(v);
+        u32::from_be_bytes([b[0], b[1], b[2], b[3]])
+    }
+    fn u48f(v: &Value) -> u64 {
+        bytes_of(v).iter().fold(0u64, |a, b| a * 256 + u64::from(*b))
+    }
+    fn cs(v: &Value) -> R<CharStr<Vec<u8>>> {
+        CharStr::from_octets(bytes_of(v)).map_err(|e| e.to_string())
+    }
+    fn bitmap(v: &Value) -> R<RtypeBitmap<Vec<u8>>> {
+        let mut b = RtypeBitmap::<Vec<u8>>::builder();
+        // sets arrive in TLC's order; the builder takes any order
+        for t in v.as_array().ok_or("bitmap")?.iter().rev() {
+            b.add(Rtype::from_int(t.as_u64().unwrap() as u16)).map_err(|e| e.to_string())?;
+        }
+        Ok(b.finalize())
+    }
+    fn v4(v: &Value) -> Ipv4Addr {
+        let b = bytes_of(v);
+        Ipv4Addr::from([b[0], b[1], b[2], b[3]])
+    }
+    fn v6(v: &Value) -> Ipv6Addr {
+        let mut a = [0u8; 16];
+        a.copy_from_slice(&bytes_of(v));
+        Ipv6Addr::from(a)
+    }
+    fn es<E: std::fmt::Display>(e: E) -> String {
+        e.to_string()
+    }
+
+    /// The value with these fields, through the public constructor of its
+    /// type (`Err` = the constructor refused).
+    pub fn construct(rtype: u16, f: &[Value]) -> R<Built> {
+        let sec = |v: &Value| SecurityAlgorithm::from_int(u8f(v));
+        Ok(match rtype {
+            1 => A::new(v4(&f[0])).into(),
+            2 => Ns::new(name(&f[0])?).into(),
+            3 => Md::new(name(&f[0])?).into(),
+            4 => Mf::new(name(&f[0])?).into(),
+            5 => Cname::new(name(&f[0])?).into(),
+            6 => Soa::new(name(&f[0])?, name(&f[1])?, Serial::from(u32f(&f[2])),
+                          Ttl::from_secs(u32f(&f[3])), Ttl::from_secs(u32f(&f[4])),
+                          Ttl::from_secs(u32f(&f[5])), Ttl::from_secs(u32f(&f[6]))).into(),
+            7 => Mb::new(name(&f[0])?).into(),
+            8 => Mg::new(name(&f[0])?).into(),
+            9 => Mr::new(name(&f[0])?).into(),
+            10 => Null::from_octets(bytes_of(&f[0])).map_err(es)?.into(),
+            12 => Ptr::new(name(&f[0])?).into(),
+            13 => Hinfo::new(cs(&f[0])?, cs(&f[1])?).into(),
+            14 => Minfo::new(name(&f[0])?, name(&f[1])?).into(),
+            15 => Mx::new(u16f(&f[0]), name(&f[1])?).into(),
+            16 => {
+                let mut b = TxtBuilder::<Vec<u8>>::new();
+                for x in f[0].as_array().ok_or("txt")? {
+                    b.append_charstr(&cs(x)?).map_err(es)?;
+                }
+                b.finish().map_err(es)?.into()
+            }
+            17 => Rp::new(name(&f[0])?, name(&f[1])?).into(),
+            28 => Aaaa::new(v6(&f[0])).into(),
+            33 => Srv::new(u16f(&f[0]), u16f(&f[1]), u16f(&f[2]), name(&f[3])?).into(),
+            35 => Naptr::new(u16f(&f[0]), u16f(&f[1]), cs(&f[2])?, cs(&f[3])?, cs(&f[4])?, name(&f[5])?).into(),
+            39 => Dname::new(name(&f[0])?).into(),
+            41 => {
+                let mut opt = Opt::<Vec<u8>>::empty();
+                for o in f[0].as_array().ok_or("opt")? {
+                    let u = UnknownOptData::new(OptionCode::from_int(o["k"].as_u64().unwrap() as u16), bytes_of(&o["v"]))
+                        .map_err(es)?;
+                    opt.push(&u).map_err(es)?;
+                }
+                opt.into()
+            }
+            43 => Ds::new(u16f(&f[0]), sec(&f[1]), DigestAlgorithm::from_int(u8f(&f[2])), bytes_of(&f[3])).map_err(es)?.into(),
+            59 => Cds::new(u16f(&f[0]), sec(&f[1]), DigestAlgorithm::from_int(u8f(&f[2])), bytes_of(&f[3])).map_err(es)?.into(),
+            44 => Sshfp::new(SshfpAlgorithm::from_int(u8f(&f[0])), SshfpType::from_int(u8f(&f[1])), bytes_of(&f[2])).into(),
+            45 => {
+                let g = &f[1];
+                let gw = match g["gt"].as_u64() {
+                    Some(0) => IpseckeyGateway::None,
+                    Some(1) => IpseckeyGateway::Ipv4(A::new(v4(&g["gw"]))),
+                    Some(2) => IpseckeyGateway::Ipv6(Aaaa::new(v6(&g["gw"]))),
+                    _ => IpseckeyGateway::Name(name(&g["gw"])?),
+                };
+                Ipseckey::new(u8f(&f[0]), IpseckeyAlgorithm::from_int(g["alg"].as_u64().unwrap() as u8), gw, bytes_of(&f[2])).into()
+            }
+            46 => Rrsig::new(Rtype::from_int(u16f(&f[0])), sec(&f[1]), u8f(&f[2]), Ttl::from_secs(u32f(&f[3])),
+                             Timestamp::from(u32f(&f[4])), Timestamp::from(u32f(&f[5])), u16f(&f[6]),
+                             name(&f[7])?, bytes_of(&f[8])).map_err(es)?.into(),
+            47 => Nsec::new(name(&f[0])?, bitmap(&f[1])?).into(),
+            48 => Dnskey::new(u16f(&f[0]), u8f(&f[1]), sec(&f[2]), bytes_of(&f[3])).map_err(es)?.into(),
+            60 => Cdnskey::new(u16f(&f[0]), u8f(&f[1]), sec(&f[2]), bytes_of(&f[3])).map_err(es)?.into(),
+            50 => Nsec3::new(Nsec3HashAlgorithm::from_int(u8f(&f[0])), u8f(&f[1]), u16f(&f[2]),
+                             Nsec3Salt::from_octets(bytes_of(&f[3])).map_err(es)?,
+                             OwnerHash::from_octets(bytes_of(&f[4])).map_err(es)?, bitmap(&f[5])?).into(),
+            51 => Nsec3param::new(Nsec3HashAlgorithm::from_int(u8f(&f[0])), u8f(&f[1]), u16f(&f[2]),
+                                  Nsec3Salt::from_octets(bytes_of(&f[3])).map_err(es)?).into(),
+            52 => Tlsa::new(TlsaCertificateUsage::from_int(u8f(&f[0])), TlsaSelector::from_int(u8f(&f[1])),
+                            TlsaMatchingType::from_int(u8f(&f[2])), bytes_of(&f[3])).into(),
+            61 => Openpgpkey::new(bytes_of(&f[0])).into(),
+            63 => Zonemd::new(Serial::from(u32f(&f[0])), ZonemdScheme::from_int(u8f(&f[1])),
+                              ZonemdAlgorithm::from_int(u8f(&f[2])), bytes_of(&f[3])).into(),
+            64 | 65 => {
+                let mut b = SvcParamsBuilder::<Vec<u8>>::empty();
+                // pushed in descending key order: the builder sorts
+                for p in f[2].as_array().ok_or("svcparams")?.iter().rev() {
+                    let u = UnknownSvcParam::new(SvcParamKey::from_int(p["k"].as_u64().unwrap() as u16), bytes_of(&p["v"]))
+                        .map_err(es)?;
+                    b.push(&u).map_err(es)?;
+                }
+                let params = b.freeze::<Vec<u8>>().map_err(es)?;
+                if rtype == 64 {
+                    Svcb::new(u16f(&f[0]), name(&f[1])?, params).map_err(es)?.into()
+                } else {
+                    Https::new(u16f(&f[0]), name(&f[1])?, params).map_err(es)?.into()
+                }
+            }
+            250 => Tsig::new(name(&f[0])?, Time48::from_u64(u48f(&f[1])), u16f(&f[2]), bytes_of(&f[3]),
+                             u16f(&f[4]), TsigRcode::from_int(u16f(&f[5])), bytes_of(&f[6])).map_err(es)?.into(),
+            257 => Caa::new(CaaFlags::new(u8f(&f[0])), CaaTag::from_octets(bytes_of(&f[1])).map_err(es)?, bytes_of(&f[2])).into(),
+            other => UnknownRecordData::from_octets(Rtype::from_int(other), bytes_of(&f[0])).map_err(es)?.into(),
+        })
+    }
+
+    /// value (constructed) -> compose -> parse
+    pub fn observe_ctor(rtype: u16, fields: &[Value], strict_opts: bool) -> Value {
+        let built = match construct(rtype, fields) {
+            Ok(b) => b,
+            Err(_) => return json!({"ctor": "refused"}),
+        };
+        let mut issues: Vec<String> = vec![];
+        let wire = compose_plain(&built);
+        if built.rtype().to_int() != rtype {
+            issues.push("constructed value reports another type".into());
+        }
+        if built.rdlen(false).map(|n| n as usize).unwrap_or(wire.len()) != wire.len() {
+            issues.push("constructed value: rdlen differs from octets written".into());
+        }
+        let msg = one_record_msg(&[1, b'x', 2, b'Y', b'z', 0], rtype, &wire);
+        let rd = observe_rdata(&msg, false, strict_opts);
+        if let Ok(m) = Message::from_slice(&msg) {
+            match parse_all(m) {
+                Ok(rec) => {
+                    if built != *rec.data() {
+                        issues.push("constructed value differs from the value parsed from its own octets (==)".into());
+                    }
+                    if compose_canon(&built) != compose_canon(rec.data()) {
+                        issues.push("constructed value: canonical form differs from the parsed value's".into());
+                    }
+                }
+                Err(_) => issues.push("octets of the constructed value do not parse".into()),
+            }
+        }
+        json!({"ctor": "ok", "issues": issues, "rd": rd})
+    }
+
+    /// A constructor at the 65535-octet RDATA limit: the last field of the
+    /// base value is replaced by `n` octets `b`.  A refusal by the
+    /// constructor, by compose_len_rdata, or a panic of either is "refused".
+    pub fn observe_ctor_long(rtype: u16, fields: &[Value], n: usize, b: u8, checked: bool) -> Value {
+        let mut f = fields.to_vec();
+        let last = f.len() - 1;
+        f[last] = json!(vec![b; n]);
+        let refused = json!({"outcome": "refused"});
+        // where the constructor does not document a length check, refusing
+        // to write the over-long value is as good as refusing to build it
+        let unwritable = if checked { json!({"outcome": "built, then not writable"}) } else { refused.clone() };
+        let built = match std::panic::catch_unwind(std::panic::AssertUnwindSafe(|| construct(rtype, &f))) {
+            Ok(Ok(x)) => x,
+            Ok(Err(_)) => return refused,
+            Err(_) => return json!({"outcome": "constructor panicked"}),
+        };
+        let r = std::panic::catch_unwind(std::panic::AssertUnwindSafe(|| {
+            let mut lenbuf = Vec::new();
+            built.compose_len_rdata(&mut lenbuf).ok().map(|_| lenbuf)
+        }));
+        let lenbuf = match r {
+            Ok(Some(x)) => x,
+            _ => return unwritable,
+        };
+        let wire = compose_plain(&built);
+        let advertised = u16::from_be_bytes([lenbuf[0], lenbuf[1]]) as usize;
+        let msg = one_record_msg(&[1, b'x', 2, b'Y', b'z', 0], rtype, &wire);
+        let reparse = Message::from_slice(&msg).ok().and_then(|m| parse_all(m).ok())
+            .map(|r| built == *r.data() && compose_plain(r.data()) == wire && lenbuf[2..] == wire[..])
+            .unwrap_or(false);
+        json!({"outcome": "ok", "len": wire.len(), "advertised": advertised, "reparse": reparse})
+    }
+}
+
+//============================================================================
 // random record data by layout (I->S recorders)
 //============================================================================
 
